@@ -118,7 +118,10 @@ def selection_order_problems(src):
     squash = lambda t: re.sub(r'\s+', '', t)
     f = find_function(src, 'find_insn_pattern')
     body = squash(f[1]) if f else ''
-    shape = (r'for\(i=0;i<info\.num;i\+\+\)\{ind=[^;]*pattern_indexes,info\.start\+i\)+;pat=&patterns\[ind\];'
+    # an increasing scan of the opcode's slice of pattern_indexes that returns at the first match:
+    #   for (i = 0; i < info.num; i++) ind = ...(pattern_indexes, info.start + i)      or
+    #   for (i = info.start; i < info.bound; i++) ind = ...(pattern_indexes, i)
+    shape = (r'for\(i=(?:0|info\.\w+);i<info\.\w+;i\+\+\)\{ind=[^;]*pattern_indexes,(?:info\.\w+\+i|i\+info\.\w+|i)\)+;pat=&patterns\[ind\];'
              r'if\(pattern_match_p\(gen_ctx,pat,insn,[^;{]*\)\)\{(?:if\([^;{]*\)[^;{]*;)?returnind;\}\}return-1;$')
     if not re.search(shape, body):
         problems.append('find_insn_pattern no longer returns the first matching row of the opcode in table order')
